@@ -729,19 +729,20 @@ fn parent(args: &Args) {
             if engine == "pdr" && pts.len() > pdr_cap {
                 // the first and last points, every get-unsat-assumptions/get-value kind represented, the rest sampled
                 let mut keep = std::collections::BTreeSet::new();
-                for i in 0..4.min(pts.len()) {
-                    keep.insert(i);
-                    keep.insert(pts.len() - 1 - i);
-                }
+                keep.insert(0);
+                keep.insert(pts.len() - 1);
                 for kind in ["check-sat-assuming", "get-value", "get-unsat-assumptions"] {
                     let of_kind: Vec<usize> = (0..pts.len()).filter(|i| pts[*i].1 == kind).collect();
-                    for _ in 0..3 {
-                        if !of_kind.is_empty() {
-                            keep.insert(*rng.pick(&of_kind));
-                        }
+                    if !of_kind.is_empty() && keep.len() < pdr_cap {
+                        keep.insert(*rng.pick(&of_kind));
                     }
                 }
-                while keep.len() < pdr_cap {
+                // points after a solver restart (the BMC run that builds the witness) are represented too
+                let second: Vec<usize> = (0..pts.len()).filter(|i| nominal.log.point_instance.get(*i).copied().unwrap_or(0) > 0).collect();
+                if !second.is_empty() && keep.len() < pdr_cap {
+                    keep.insert(*rng.pick(&second));
+                }
+                while keep.len() < pdr_cap.min(pts.len()) {
                     keep.insert(rng.below(pts.len() as u64) as usize);
                 }
                 chosen = keep.into_iter().collect();
